@@ -1511,7 +1511,7 @@ Proof.
   destruct s as [w st]. intros [-> | [p ->]] H Ha; cbn [step] in H.
   - destruct (index_files w st) eqn:E; inversion H; subst; try discriminate.
     cbn [fst snd]. split; [reflexivity|]. exists st. split; [exact E | auto].
-  - destruct (get_document_info w p st) as [[st1 d1]| |] eqn:E; [|inversion H; subst; discriminate..].
+  - destruct (get_document_info w p st) as [[st1 d1]| |] eqn:E; [|inversion H; subst; try (match goal with H0 : context [?k =? 1] |- _ => destruct (k =? 1) end); discriminate..].
     destruct (index_files w _) eqn:E2; inversion H; subst; try discriminate.
     cbn [fst snd]. split; [reflexivity|]. eexists. split; [exact E2|].
     intros q d Hne Hq. cbn [op_path] in Hne. rewrite set_doc_other by congruence.
